@@ -40,8 +40,8 @@ class C27(Scenario):
         "quick": [("fault-free", 5), ("interrupts", 4), ("stack", 2), ("aliasing", 2), ("sweep", 2)],
         "thorough": [("fault-free", 5), ("interrupts", 5), ("stack", 3), ("aliasing", 3), ("long", 2), ("untorn-off", 1), ("sweep", 3)],
     }
-    runs = {"quick": 4000, "thorough": 90000}
-    wall = {"quick": 75, "thorough": 1300}
+    runs = {"quick": 8000, "thorough": 90000}
+    wall = {"quick": 90, "thorough": 1300}
     rule = (
         "one run = one generated pool program on one simulated process (seeded salt): environment, 1-3 forms, "
         "then 3-14 steps (long arm: up to 40), each a public algorithm / form operator / comparison / set lookup / "
